@@ -156,9 +156,10 @@ def afterRead (u : User) (s : St) (id sz : Nat) : RRes → St × Bool
   | .eof => (streamEof u s (some id), false)                         -- 1110-1112
   | .data bs =>                                                      -- 1113-1155
     let s := callReadCb u s bs.length (some id) bs
-    -- "didn't fill the buffer, there is no more data": not for IPC pipes, where the kernel ends a
-    -- read at the boundary of a descriptor-carrying message (1150-1157)
-    if bs.length < sz && !s.ipc then ({ s with readPartial := true }, false)
+    -- "didn't fill the buffer, there is no more data to read": return (1150-1161).  For IPC pipes that
+    -- is only a hint (the kernel ends a read at the boundary of a descriptor-carrying message), so
+    -- the partial read is not recorded there and a hang-up is never taken for end-of-stream.
+    if bs.length < sz then ((if !s.ipc then { s with readPartial := true } else s), false)
     else (s, true)
 
 /-- one iteration of the `while` loop of uv__read (its condition already checked), stream.c:1049-1155 -/
@@ -225,6 +226,9 @@ def stepOp (u : User) (s : St) : Op → St
 def exec (u : User) (s : St) (ops : List Op) : St := ops.foldl (stepOp u) s
 
 def init : St := {}
+
+/-- a freshly opened stream: plain (`ipc = false`) or IPC pipe -/
+def start (ipc : Bool) : St := { ipc := ipc }
 
 /-! trace observers used by the property statements -/
 
